@@ -507,6 +507,11 @@ func (s *scope) lookupName(name unistring.String) (binding *binding, noDynamics 
 			}
 			curScope.argsNeeded = true
 			binding, _ = curScope.bindName(name)
+			if toStash && !binding.inStash {
+				// first reference comes from a nested arrow function: like any captured binding it
+				// must live in the stash, not in the outer function's stack frame
+				binding.moveToStash()
+			}
 			return
 		}
 		if curScope.isFunction() {
